@@ -190,10 +190,27 @@ mod verif_bounded_mdk {
             ("image set", NostrGroupDataUpdate::new().image_hash(Some([1u8; 32])).image_key(Some([2u8; 32])).image_nonce(Some([3u8; 12]))),
             ("image cleared", NostrGroupDataUpdate::new().image_hash(None)),
         ];
+        // C08 "matched by the Nostr group id currently in force": an undecryptable kind:445 event tagged with the group's FIRST id
+        // fails before the rotation; re-delivered while that id is in force it is attributed to the group, re-delivered after the
+        // rotation it names an id no group holds and must not be attributed to any group (PreviouslyFailed) -- on both back ends
+        let first_id = w.mem.get_group(&w.gid).unwrap().unwrap().nostr_group_id;
+        let stray = nostr::EventBuilder::new(nostr::Kind::MlsGroupMessage, "not-a-valid-ciphertext").tag(nostr::Tag::custom(nostr::TagKind::h(), [hex::encode(first_id)])).sign_with_keys(&Keys::generate()).unwrap();
+        let attribution = |m: &dyn Fn(&Event) -> Result<crate::messages::MessageProcessingResult, crate::Error>, e: &Event| -> String { match m(e) { Ok(crate::messages::MessageProcessingResult::Unprocessable { mls_group_id }) => format!("Unprocessable for group {}", hex::encode(mls_group_id.as_slice())), Ok(crate::messages::MessageProcessingResult::PreviouslyFailed) => "PreviouslyFailed (no group)".to_string(), Ok(_) => "another Ok result".to_string(), Err(_) => "Err".to_string() } };
+        let _ = w.mem.process_message(&stray); let _ = w.sql.process_message(&stray);
+        w.log.push("an undecryptable event tagged with the group's first Nostr id fails".into());
+        for (who, got) in [("memory-backed", attribution(&|e| w.mem.process_message(e), &stray)), ("SQLite-backed", attribution(&|e| w.sql.process_message(e), &stray))] {
+            let want = format!("Unprocessable for group {}", hex::encode(w.gid.as_slice()));
+            if got != want { panic!("BOUNDED-COUNTEREXAMPLE {label}: scenario [history: {} ; the same event again while that id is in force] the {who} client answers {got:?}, expected {want:?}", w.log.join(" ; ")); }
+        }
         for (what, upd) in steps {
             let c = w.a.update_group_data(&w.gid, upd).unwrap().evolution_event;
             w.a.merge_pending_commit(&w.gid).unwrap(); w.b.process_message(&c).unwrap();
             w.deliver(label, &format!("alice's commit: {what}"), &c);
+            if what == "nostr group id rotation" {
+                for (who, got) in [("memory-backed", attribution(&|e| w.mem.process_message(e), &stray)), ("SQLite-backed", attribution(&|e| w.sql.process_message(e), &stray))] {
+                    if got != "PreviouslyFailed (no group)" { panic!("BOUNDED-COUNTEREXAMPLE {label}: scenario [history: {} ; the failed event tagged with the rotated-away id is delivered again] the {who} client answers {got:?}: an id no group holds any more must not match a group", w.log.join(" ; ")); }
+                }
+            }
             let text = format!("after {what}");
             w.alice_msg(label, &text);
         }
